@@ -17,7 +17,7 @@ ID = 'C14'
 LEVEL = 'exploration'
 NUMERIC = ['i8', 'i16', 'i32', 'i64', 'u8', 'u16', 'u32', 'u64', 'f32', 'f64']
 STRAIN = [10183, 10184, 10185, 10188, 10189, 10271, 10272]
-RULE = ("ENUMERATED matrix: every raw type (10 numeric x 25 scalings: none, Linear, Polynomial with 0 and 3 coefficients, Table, "
+RULE = ("ENUMERATED matrix: every raw type (10 numeric x 27 scalings: none, Linear (incl. the identity), identity polynomial, Polynomial with 0 and 3 coefficients, Table, "
         "RTD, Thermistor x 2 excitations, Strain x 7 bridges, Thermocouple x 2 directions, AdvancedAPI on raw and on a scale, "
         "Add and Subtract over mixed operands, Linear->Add chain; 7 non-numeric types unscaled) x channel length 0 / 1 / 5 "
         "over 2 segments x eager / lazy x raw_timestamps on / off, each with every read operation: [:], read_data(), all "
@@ -41,7 +41,9 @@ def scale_variants():
            'Thermistor_Resistance_Configuration': 4, 'Thermistor_R1_Reference_Resistance': 1e4,
            'Thermistor_Lead_Wire_Resistance': 0.0, 'Thermistor_A': 1.3e-3, 'Thermistor_B': 2.4e-4, 'Thermistor_C': 1e-7,
            'Thermistor_Temperature_Offset': 0.0}
-    out = [('none', None), ('Linear', [L]),
+    out = [('none', None), ('Linear', [L]), ('Linear_identity', [dict(L, slope=1.0, intercept=0.0)]),
+           ('Polynomial_identity', [{'type': 'Polynomial', 'coeffs': [0.0, 1.0], 'src': None, 'explicit_src': False,
+                                     'size_prop': True}]),
            ('Polynomial0', [{'type': 'Polynomial', 'coeffs': [], 'src': None, 'explicit_src': False, 'size_prop': True}]),
            ('Polynomial3', [{'type': 'Polynomial', 'coeffs': [1.0, 0.5, 0.25], 'src': None, 'explicit_src': True,
                              'size_prop': True}]),
